@@ -90,7 +90,15 @@ func runChild(prop string, s *Script) childResult {
 	in, _ := json.Marshal(s)
 	ctx, cancel := context.WithTimeout(context.Background(), 120*time.Second)
 	defer cancel()
+	// the scratch directory is made (and removed) here, so that it does not
+	// stay behind when the child dies
+	dir, derr := os.MkdirTemp("", "verif-ctl-")
+	if derr != nil {
+		panic(derr)
+	}
+	defer os.RemoveAll(dir)
 	cmd := exec.CommandContext(ctx, os.Args[0], "-child", prop)
+	cmd.Env = append(os.Environ(), "VERIF_CTL_DIR="+dir)
 	cmd.Stdin = bytes.NewReader(in)
 	var out, errb bytes.Buffer
 	cmd.Stdout = &out
